@@ -325,7 +325,54 @@ func (e *c01env) signN(r *mon.Rand, in map[string]any, i int, payload, ext []byt
 		algs += k.Name + ","
 	}
 	in["algs"] = algs
+	if n >= 2 && (i/60)%4 == 1 {
+		// one identity signing in several slots (its kid in each of them, in either bucket)
+		for j, sg := range msg.Signatures {
+			if sg.Headers.Unprotected == nil {
+				sg.Headers.Unprotected = cose.UnprotectedHeader{}
+			}
+			if sg.Headers.Protected == nil {
+				sg.Headers.Protected = cose.ProtectedHeader{}
+			}
+			for _, mm := range []map[any]any{sg.Headers.Unprotected, sg.Headers.Protected} {
+				for key := range mm {
+					if nl, ok := refNorm(key); ok && nl == 4 {
+						delete(mm, key)
+					}
+				}
+			}
+			if (i/240+j)%2 == 0 {
+				sg.Headers.Unprotected[int64(4)] = []byte("one-identity")
+			} else {
+				sg.Headers.Protected[int64(4)] = []byte("one-identity")
+			}
+		}
+		rec.Event("same-kid-in-several-slots")
+	}
 	var err error
+	if n >= 2 && (i/60)%4 == 2 {
+		// a first attempt in which a later signer fails, then the caller corrects what is to be signed (other
+		// payload, other external data) and signs again with working signers: if that second call reports
+		// success, the message verifies like any other
+		broken := append([]cose.Signer{}, signers...)
+		at := 1 + (i/240)%(n-1)
+		broken[at] = &mon.SpySigner{Alg: signers[at].Algorithm(), Err: mon.ErrInjected}
+		var e1 error
+		if guard(rec, "SignMessage.Sign(first attempt, a later signer fails)", in, func() { e1 = msg.Sign(gen.Entropy, ext, broken...) }) {
+			return
+		}
+		if e1 == nil {
+			e.fail("failing-signer-not-reported", "sign", nil, in)
+			return
+		}
+		payload = append(append([]byte{}, payload...), []byte("-corrected")...)
+		msg.Payload = payload
+		if (i/240)%2 == 1 {
+			ext = append(append([]byte{}, ext...), 'x')
+		}
+		in["second_attempt"] = true
+		rec.Event("sign-retried-after-partial-failure")
+	}
 	if guard(rec, "SignMessage.Sign", in, func() { err = msg.Sign(gen.Entropy, ext, signers...) }) {
 		return
 	}
